@@ -437,50 +437,36 @@ pub fn expand_glob(tokens: &mut types::Tokens) {
     }
 }
 
-fn expand_one_env(sh: &Shell, token: &str) -> String {
-    // do not combine these two into one: `\{?..\}?`,
-    // otherwize `}` in `{print $NF}` would gone.
-    let re1 = Regex::new(r"^(.*?)\$([A-Za-z0-9_]+|\$|\?)(.*)$").unwrap();
-    let re2 = Regex::new(r"(.*?)\$\{([A-Za-z0-9_]+|\$|\?)\}(.*)$").unwrap();
-    if !re1.is_match(token) && !re2.is_match(token) {
-        return token.to_string();
-    }
-
-    let mut result = String::new();
-    let match_re1 = re1.is_match(token);
-    let match_re2 = re2.is_match(token);
-    if !match_re1 && !match_re2 {
-        return token.to_string();
-    }
-
-    let cap_results = if match_re1 {
-        re1.captures_iter(token)
-    } else {
-        re2.captures_iter(token)
+/// Expand the first (leftmost) `$NAME`, `${NAME}`, `$$` or `$?` of `token`.
+/// Returns the text up to and including the inserted value, and the rest
+/// of the token that has not been looked at yet; None if there is nothing
+/// to expand.
+fn expand_one_env(sh: &Shell, token: &str) -> Option<(String, String)> {
+    let re = Regex::new(
+        r"(?s)^(.*?)(?:\$([A-Za-z0-9_]+|\$|\?)|\$\{([A-Za-z0-9_]+|\$|\?)\})(.*)$"
+    ).unwrap();
+    let cap = re.captures(token)?;
+    let head = cap[1].to_string();
+    let tail = cap[4].to_string();
+    let key = match cap.get(2) {
+        Some(x) => x.as_str().to_string(),
+        None => cap[3].to_string(),
     };
 
-    for cap in cap_results {
-        let head = cap[1].to_string();
-        let tail = cap[3].to_string();
-        let key = cap[2].to_string();
-        if key == "?" {
-            result.push_str(format!("{}{}", head, sh.previous_status).as_str());
-        } else if key == "$" {
-            unsafe {
-                let val = libc::getpid();
-                result.push_str(format!("{}{}", head, val).as_str());
-            }
-        } else if let Ok(val) = env::var(&key) {
-            result.push_str(format!("{}{}", head, val).as_str());
-        } else if let Some(val) = sh.get_env(&key) {
-            result.push_str(format!("{}{}", head, val).as_str());
-        } else {
-            result.push_str(&head);
+    let mut result = head;
+    if key == "?" {
+        result.push_str(format!("{}", sh.previous_status).as_str());
+    } else if key == "$" {
+        unsafe {
+            let val = libc::getpid();
+            result.push_str(format!("{}", val).as_str());
         }
-        result.push_str(&tail);
+    } else if let Ok(val) = env::var(&key) {
+        result.push_str(&val);
+    } else if let Some(val) = sh.get_env(&key) {
+        result.push_str(&val);
     }
-
-    result
+    Some((result, tail))
 }
 
 fn need_expand_brace(line: &str) -> bool {
@@ -801,10 +787,20 @@ pub fn expand_env(sh: &Shell, tokens: &mut types::Tokens) {
             continue;
         }
 
-        let mut _token = token.clone();
-        while env_in_token(&_token) {
-            _token = expand_one_env(sh, &_token);
+        // single pass, left to right: an inserted value is never scanned
+        // again, so values containing `$` are kept as they are.
+        let mut _token = String::new();
+        let mut _rest = token.clone();
+        while env_in_token(&_rest) {
+            match expand_one_env(sh, &_rest) {
+                Some((done, rest)) => {
+                    _token.push_str(&done);
+                    _rest = rest;
+                }
+                None => break,
+            }
         }
+        _token.push_str(&_rest);
         buff.push((idx, _token));
         idx += 1;
     }
